@@ -168,27 +168,26 @@ def _twin_class(real, derive):
             d = None
         return obj if d is None else d
 
-    class Meta(type(real)):
+    # NOT a subclass of `real` (a subclass would stay registered with the ABC machinery of the library's classes after the twin run and
+    # make every later issubclass() recurse): a stand-in whose call / classmethod constructors go through `derive` and which answers
+    # isinstance / issubclass like the real class
+    class Meta(type):
         def __instancecheck__(cls, inst):
             return isinstance(inst, real)
 
         def __subclasscheck__(cls, sub):
-            return issubclass(sub, real)
+            return sub is cls or (isinstance(sub, type) and issubclass(sub, real))
 
-    def __new__(cls, *a, **k):
-        return through(real(*a, **k))           # an instance of `real`, not of the twin class: __init__ is not run a second time
+        def __call__(cls, *a, **k):
+            return through(real(*a, **k))
 
-    ns = {"__new__": __new__, "__module__": real.__module__, "__qualname__": real.__qualname__}
-    for name in dir(real):
-        if name.startswith("_"):
-            continue
-        try:
+        def __getattr__(cls, name):
             f = getattr(real, name)
-        except Exception:
-            continue
-        if inspect.ismethod(f) and f.__self__ is real:       # classmethod constructors (Mask2D.circular, Kernel2D.no_mask, ...)
-            ns[name] = staticmethod(lambda *a, _f=f, **k: through(_f(*a, **k)))
-    return Meta(real.__name__, (real,), ns)
+            if inspect.ismethod(f) and f.__self__ is real:       # classmethod constructors (Mask2D.circular, Kernel2D.no_mask, ...)
+                return lambda *a, **k: through(f(*a, **k))
+            return f
+
+    return Meta(real.__name__, (), {"__module__": real.__module__, "__qualname__": real.__qualname__, "__doc__": real.__doc__})
 
 
 import contextlib
